@@ -39,6 +39,7 @@ type Harness struct {
 	StageATimeout int             // ms: limit for the unbounded SMT-string attempt
 	Havoc         map[string]bool // functions replaced by fresh results (harness-declared over-approximation)
 	Ideal         bool            // replace first-party CFB cipher by its ideal model (flow harnesses)
+	AbstractLen   bool // ideal hash outputs without fixed length
 	Race          bool // replay under the race detector
 	Guess         bool            // try guess-and-check models first (large strings)
 	NoValidate    bool            // no native validation samples (harness depends on uncontrollable native state, e.g. wall-clock nanoseconds)
@@ -274,6 +275,8 @@ func (w *World) load() error {
 								}
 							case "ideal":
 								h.Ideal = true
+							case "abstractlen":
+								h.AbstractLen = true
 							case "race":
 								h.Race = true
 							case "guess":
